@@ -261,3 +261,28 @@ Theorem C18_relative_lookup : forall st name k ps,
   lookup st (spec_relative_view ps name) k = lookup st ps (name ++ sep ++ k)%string.
 Proof. exact relative_lookup. Qed.
 Print Assumptions C18_relative_lookup.
+
+(* "unless disabled": with upgrade_flags=False the archived streams are not looked at at all - no error even for an
+   incompatible one, the stream's own flags and its own number of dumps, in every way of opening that reads them *)
+Theorem C18_upgrade_disabled_keeps_own_flags : forall s t stream cur archived, (0 <= c_dumps cur)%Z -> s = true \/ t = None ->
+  open_source (mkMode s (Some false) t) stream cur archived =
+  Ok (mkOpened (match t with Some k => k | None => c_dumps cur end)
+               (if s then Some (c_dumps cur, c_id cur, c_from cur) else None)).
+Proof. exact upgrade_disabled. Qed.
+Print Assumptions C18_upgrade_disabled_keeps_own_flags.
+
+(* laws: the archived list composes piecewise; stacked views fall back; aligning is idempotent *)
+Theorem C18_upgrade_composes : forall stream a b cur,
+  upgrade_flags stream cur (a ++ b) =
+  match upgrade_flags stream cur a with Ok c => upgrade_flags stream c b | Err e => Err e end.
+Proof. exact upgrade_composes. Qed.
+Print Assumptions C18_upgrade_composes.
+
+Theorem C18_view_stacking_falls_back : forall st k ps1 ps2,
+  lookup st (ps1 ++ ps2) k = match lookup st ps1 k with Some v => Some v | None => lookup st ps2 k end.
+Proof. exact lookup_app. Qed.
+Print Assumptions C18_view_stacking_falls_back.
+
+Theorem C18_align_idempotent : forall arrays, align_chunk_info (align_chunk_info arrays) = align_chunk_info arrays.
+Proof. exact align_idempotent. Qed.
+Print Assumptions C18_align_idempotent.
